@@ -460,6 +460,13 @@ def run_history(case, rec, mode):
                     if o is result:
                         continue
                     require(not shares_memory(result, o), f'{kind}: the returned object shares memory with another object', other=name, step=step)
+                # ... nor with itself: every site tensor and every charge list of a fresh result is its own array (an in-place update
+                # of one site must not reach another site)
+                parts = list(result.A) + list(result.qD) + [result.qd]
+                for i in range(len(parts)):
+                    for j in range(i + 1, len(parts)):
+                        if isinstance(parts[i], np.ndarray) and isinstance(parts[j], np.ndarray) and parts[i].size and parts[j].size:
+                            require(not np.shares_memory(parts[i], parts[j]), f'{kind}: two arrays of the returned object share memory', i=i, j=j, step=step)
                 # mutate the fresh result in place and make sure nothing else changes
                 if operands and len(step) > 3 and isinstance(step[-1], int):
                     mk = step[-1] % 6
